@@ -412,13 +412,11 @@ def build_args(d, arr, c, rs, nelem):
         else:
             ids = np.array(args[k[7:]], dtype="i8").ravel()
             vals = ns["stat"].histogram(ids - ids.min(), rev=True)[1]
-            # htmrev2 is handed to the C++ code WITHOUT conversion: anything but native contiguous int64 makes cbincount read
-            # garbage indices and crash (seen on HEAD: segmentation fault for a byte-swapped strided htmrev2; reported).  The
-            # reverse indices are therefore always generated in the one form the function supports; read-only / sequence / aliasing
-            # modes still apply to them.
-            a = np.ascontiguousarray(vals, dtype="i8").copy()
-            args[p] = a
-            continue
+            # (until fix e470bc2 htmrev2 was handed to the C++ code without conversion and anything but native contiguous int64
+            # crashed; now it is converted like the ids, so the reverse indices go through the full dtype / order / layout matrix.
+            # They must still be CONSISTENT with the positions: the aliasing forms and the in-place overwrite of the sequence
+            # form stay disabled for precomputed arguments.)
+            dt = c["dt"] if c["dt"] in ("i8", "u8", "i4") else "i8"
         a = make_array("int", dt, c["order"], c["layout"], 1, rs, nelem=int(vals.size))
         a[...] = vals
         args[p] = a
@@ -429,11 +427,12 @@ NELEM = {"len1": 1, "long": 4099}        # 4099 = 2**12 + 3: beyond any plausibl
 
 
 def n_checked(d):
-    """number of array parameters that can be replaced by one another (aliasing forms); 0 for drivers with precomputed arguments:
-    ids / reverse indices must stay consistent with the positions (cbincount trusts them and crashes otherwise)"""
+    """number of array parameters that can be replaced by one another (aliasing forms); 0 for drivers with precomputed REVERSE
+    INDICES (they must stay consistent with the positions); precomputed ids alone are only histogrammed, so aliasing the positions
+    of such a driver is safe (the ids themselves are never replaced: see impl_)"""
     arr, _ = params_of(d)
-    if any(str(k).startswith(("htmid:", "htmrev:")) for k in d["gen"].values()):
-        return 0
+    if any(str(k).startswith("htmrev:") for k in d["gen"].values()):
+        return 0          # reverse indices that do not belong to the positions make cbincount index out of range (also after e470bc2)
     return len([p for p in arr if p not in d["exempt"]])
 
 
